@@ -281,6 +281,40 @@ fn scan_block_comment() {
 }
 
 #[cfg(kani)]
+fn block_comment_fixed(text: &'static [u8], consumed_expected: usize) {
+  let src = unsafe { std::str::from_utf8_unchecked(text) };
+  let mut lx = WrappedLogosLexer::new(src, ModuleReference::DUMMY);
+  let before = lx.position;
+  match lx.lex_block_comment_opt() {
+    Some((_, loc, s)) => {
+      let consumed = text.len() - lx.lexer.remainder().len();
+      assert!(consumed == consumed_expected);
+      assert!(loc.start == before && loc.end == lx.position);
+      assert!(lx.position == advance(before, &text[..consumed]));
+      std::mem::forget(s);
+    }
+    None => assert!(false),
+  }
+}
+
+// Fixed texts (the bytes are concrete, so this costs CBMC seconds whatever library routines a rewritten scanner
+// uses - `str::find`, `lines()` - where the symbolic harness above would time out): the terminator on a line of
+// its own, right after a line break, after an indented line, and a one-line comment followed by more text.
+#[cfg(kani)]
+#[kani::proof]
+#[kani::unwind(40)]
+#[kani::stub(std::string::String::from_utf8_lossy, stub_from_utf8_lossy)]
+fn scan_block_comment_fixed_shapes() {
+  block_comment_fixed(b"/*\n*/x", 5);
+  block_comment_fixed(b"/**\n*/ c", 6);
+  block_comment_fixed(b"/* a\nbc\n*/\nz", 10);
+  block_comment_fixed(b"/* a\n  */z", 9);
+  block_comment_fixed(b"/* ab */ z", 8);
+  block_comment_fixed(b"/*\n\n*/", 6);
+  kani::cover!(true);
+}
+
+#[cfg(kani)]
 #[kani::proof]
 #[kani::unwind(8)]
 fn scan_escape_validation_total() {
